@@ -316,52 +316,86 @@ def chx(b):
     return f'(hx "{bytes(b).hex()}")'
 
 
-def copt_hx(b):
-    return 'None' if b is None else f'(Some {chx(b)})'
+class Lits:
+    """Byte-string literals written relative to named base definitions of the cases file (equal, or one bit
+    flipped) when possible: keeps the files small; Coq expands `flip NAME off bit` itself."""
 
+    def __init__(self, bases):
+        self.bases = [(n, bytes(b), int.from_bytes(b, 'big')) for n, b in bases if len(b) >= 8]
 
-def r_tv(entries):
-    return '[' + '; '.join(f'({chx(vk)}, {chx(m)}, {chx(s)}, {C.cbool(b)})' for vk, m, s, b in entries) + ']'
+    def hx(self, b):
+        b = bytes(b)
+        if len(b) >= 8:
+            x = None
+            for name, base, bi in self.bases:
+                if len(base) == len(b):
+                    if base == b:
+                        return name
+                    if x is None:
+                        x = int.from_bytes(b, 'big')
+                    d = x ^ bi
+                    if d & (d - 1) == 0:
+                        pos = d.bit_length() - 1
+                        return f'(flip {name} {len(b) - 1 - pos // 8} {pos % 8})'
+        if len(b) >= 96:                              # long literal sharing a prefix and a suffix with a base
+            best = None
+            for name, base, _ in self.bases:
+                if len(base) < 96:
+                    continue
+                lim = min(len(b), len(base))
+                p = 0
+                while p < lim and b[p] == base[p]:
+                    p += 1
+                q = 0
+                while q < lim - p and b[-1 - q] == base[-1 - q]:
+                    q += 1
+                if p + q >= len(b) // 2 and (best is None or p + q > best[0]):
+                    best = (p + q, name, p, len(base) - p - q, b[p:len(b) - q])
+            if best:
+                return f'(splice {best[1]} {best[2]} {best[3]} {chx(best[4])})'
+        return chx(b)
 
+    def opt(self, b):
+        return 'None' if b is None else f'(Some {self.hx(b)})'
 
-def r_tf(entries):
-    return '[' + '; '.join(f'({chx(x)}, {chx(y)})' for x, y in entries) + ']'
+    def tv(self, entries):
+        return '[' + '; '.join(f'({self.hx(vk)}, {self.hx(m)}, {self.hx(s)}, {C.cbool(b)})' for vk, m, s, b in entries) + ']'
 
+    def tf(self, entries):
+        return '[' + '; '.join(f'({self.hx(x)}, {self.hx(y)})' for x, y in entries) + ']'
 
-def r_ts(entries):
-    return '[' + '; '.join(f'({chx(k)}, {chx(m)}, {chx(s)})' for k, m, s in entries) + ']'
+    def ts(self, entries):
+        return '[' + '; '.join(f'({self.hx(k)}, {self.hx(m)}, {self.hx(s)})' for k, m, s in entries) + ']'
 
+    def tb(self, entries):
+        return '[' + '; '.join(f'({self.hx(x)}, {self.opt(y)})' for x, y in entries) + ']'
 
-def r_tb(entries):
-    return '[' + '; '.join(f'({chx(x)}, {copt_hx(y)})' for x, y in entries) + ']'
+    def skey(self, key):
+        kind = 'KStake' if 'stake' in key['kind'] else 'KPay'
+        return (f'{{| sk_kind := {kind}; sk_ext := {C.cbool(key["kind"].startswith("x"))}; '
+                f'sk_payload := {self.hx(bytes.fromhex(key["sk"]))} |}}')
 
-
-def r_skey(key):
-    kind = 'KStake' if 'stake' in key['kind'] else 'KPay'
-    return f'{{| sk_kind := {kind}; sk_ext := {C.cbool(key["kind"].startswith("x"))}; sk_payload := {chx(bytes.fromhex(key["sk"]))} |}}'
+    def out(self, o):
+        """driver outcome -> iout literal"""
+        if o[0] == 'exc':
+            name = o[1]
+            if not all(c.isalnum() or c == '_' for c in name):
+                name = 'Weird'
+            return f'(IExc "{name}")'
+        if o[0] == 'ok':
+            _, v, msg, hb, pay, stk = o
+            if not isinstance(v, bool):
+                return 'IOther'
+            if stk is None:
+                s = 'SNone'
+            elif isinstance(stk, str):
+                s = f'(SHash {self.hx(bytes.fromhex(stk))})'
+            else:
+                s = f'(SPtr {stk[0]} {stk[1]} {stk[2]})'
+            return (f'(IOk {C.cbool(v)} {self.hx(bytes.fromhex(msg))} {int(hb, 16)} '
+                    f'{self.opt(None if pay is None else bytes.fromhex(pay))} {s})')
+        return 'IOther'
 
 
 def r_net(net):
     return 'Mainnet' if net == 1 else 'Testnet'
-
-
-def r_out(o, msg_names=None):
-    """driver outcome -> iout literal"""
-    if o[0] == 'exc':
-        name = o[1]
-        if not all(c.isalnum() or c == '_' for c in name):
-            name = 'Weird'
-        return f'(IExc "{name}")'
-    if o[0] == 'ok':
-        _, v, msg, hb, pay, stk = o
-        if not isinstance(v, bool):
-            return 'IOther'
-        if stk is None:
-            s = 'SNone'
-        elif isinstance(stk, str):
-            s = f'(SHash {chx(bytes.fromhex(stk))})'
-        else:
-            s = f'(SPtr {stk[0]} {stk[1]} {stk[2]})'
-        m = (msg_names or {}).get(msg) or chx(bytes.fromhex(msg))
-        return f'(IOk {C.cbool(v)} {m} {int(hb, 16)} {copt_hx(None if pay is None else bytes.fromhex(pay))} {s})'
-    return 'IOther'
